@@ -79,11 +79,11 @@ import (
 // types
 
 type ty struct {
-	k      string // text texts int bool byte cfg pair func
-	a, b   *ty    // pair components
-	params []*ty  // func
-	res    *ty    // func
-	part   bool   // func: the result is in Option (the function can panic)
+	k      string   // text texts int bool byte cfg pair func
+	a, b   *ty      // pair components
+	params []*ty    // func
+	res    *ty      // func
+	part   bool     // func: the result is in Option (the function can panic)
 	caps   []string // closure without results: the captured builders it appends to (passed and returned)
 }
 
@@ -117,6 +117,13 @@ var (
 	tDecl   = &ty{k: "godecl"}
 	tBools  = &ty{k: "bools"} // ...CleanOpts, each represented by its only field Sort
 	tCOpt   = &ty{k: "cleanopt"}
+	tAnyM   = &ty{k: "anym"}
+	tTypeM  = &ty{k: "typem"}
+	tCustM  = &ty{k: "custm"}
+	tGRes   = &ty{k: "gres"}
+	tYFile  = &ty{k: "yfile"}
+	tYPath  = &ty{k: "ypath"}
+	tYNode  = &ty{k: "ynode"}
 	tBad    = &ty{k: "?"}
 )
 
@@ -183,6 +190,20 @@ func (t *ty) lean() string {
 		return "List Bool"
 	case "cleanopt":
 		return "Bool"
+	case "anym":
+		return "GoSnaps.GoIO.AnyMatcher"
+	case "typem":
+		return "GoSnaps.GoIO.TypeMatcher"
+	case "custm":
+		return "GoSnaps.GoIO.CustomMatcher"
+	case "gres":
+		return "GoSnaps.GoIO.GResult"
+	case "yfile":
+		return "GoSnaps.GoIO.YFile"
+	case "ypath":
+		return "GoSnaps.GoIO.YPath"
+	case "ynode":
+		return "GoSnaps.GoIO.YNode"
 	case "registry":
 		return "GoSnaps.GoIO.Registry"
 	case "sregistry":
@@ -286,6 +307,46 @@ var funcSpecs = []funcSpec{
 		externs: map[string]param{"flag.Lookup(\"test.run\").Value.String()": {"runFlag", tText},
 			"strconv.Atoi(flag.Lookup(\"test.count\").Value.String())": {"countFlag", pairOf(tInt, tErr)},
 			"skippedTests.values": {"st.skipped", tTexts}}},
+	// package match: the matcher loops, relative to the document libraries (parameters)
+	{pkg: "match", name: "anyMatcher.matcherError", sig: "err:error,path:string->MatcherError", out: "IO", recv: "a:anym"},
+	{pkg: "match", name: "anyMatcher.Placeholder", sig: "p:any->*anyMatcher", out: "IO", recv: "a:anym"},
+	{pkg: "match", name: "anyMatcher.ErrOnMissingPath", sig: "e:bool->*anyMatcher", out: "IO", recv: "a:anym"},
+	{pkg: "match", name: "anyMatcher.JSON", sig: "b:[]byte->[]byte,[]MatcherError", out: "IO", recv: "a:anym",
+		extra:  []param{{"gjsonGet", fnOf(tGRes, tText, tText)}, {"sjsonSet", fnOf(pairOf(tText, tErr), tText, tText, tText)}},
+		extFns: map[string]param{"gjson.GetBytes": {"gjsonGet", fnOf(tGRes, tText, tText)}, "sjson.SetBytesOptions": {"sjsonSet", fnOf(pairOf(tText, tErr), tText, tText, tText)}}},
+	{pkg: "match", name: "anyMatcher.YAML", sig: "b:[]byte->[]byte,[]MatcherError", out: "IO", recv: "a:anym",
+		extra: []param{{"yamlParse", fnOf(pairOf(tYFile, tErr), tText)}, {"yamlGet", fnOf(nestedPair([]*ty{tYPath, tYNode, tBool, tErr}), tYFile, tText)},
+			{"yamlUpdate", fnOf(pairOf(tYFile, tErr), tYFile, tYPath, tText)}, {"yamlMarshal", fnOf(tText, tYFile, tBool)}},
+		extFns: map[string]param{"parser.ParseBytes": {"yamlParse", fnOf(pairOf(tYFile, tErr), tText)}, "yaml.Get": {"yamlGet", fnOf(nestedPair([]*ty{tYPath, tYNode, tBool, tErr}), tYFile, tText)},
+			"yaml.Update": {"yamlUpdate", fnOf(pairOf(tYFile, tErr), tYFile, tYPath, tText)}, "yaml.MarshalFile": {"yamlMarshal", fnOf(tText, tYFile, tBool)}}},
+	{pkg: "match", name: "customMatcher.matcherError", sig: "err:error->[]MatcherError", out: "IO", recv: "c:custm"},
+	{pkg: "match", name: "customMatcher.ErrOnMissingPath", sig: "e:bool->*customMatcher", out: "IO", recv: "c:custm"},
+	{pkg: "match", name: "customMatcher.JSON", sig: "b:[]byte->[]byte,[]MatcherError", out: "IO", recv: "c:custm",
+		extra:  []param{{"gjsonGet", fnOf(tGRes, tText, tText)}, {"sjsonSet", fnOf(pairOf(tText, tErr), tText, tText, tText)}},
+		extFns: map[string]param{"gjson.GetBytes": {"gjsonGet", fnOf(tGRes, tText, tText)}, "sjson.SetBytesOptions": {"sjsonSet", fnOf(pairOf(tText, tErr), tText, tText, tText)}}},
+	{pkg: "match", name: "customMatcher.YAML", sig: "b:[]byte->[]byte,[]MatcherError", out: "IO", recv: "c:custm",
+		extra: []param{{"yamlParse", fnOf(pairOf(tYFile, tErr), tText)}, {"yamlGet", fnOf(nestedPair([]*ty{tYPath, tYNode, tBool, tErr}), tYFile, tText)},
+			{"yamlGetValue", fnOf(pairOf(tText, tErr), tYNode)},
+			{"yamlUpdate", fnOf(pairOf(tYFile, tErr), tYFile, tYPath, tText)}, {"yamlMarshal", fnOf(tText, tYFile, tBool)}},
+		extFns: map[string]param{"parser.ParseBytes": {"yamlParse", fnOf(pairOf(tYFile, tErr), tText)}, "yaml.Get": {"yamlGet", fnOf(nestedPair([]*ty{tYPath, tYNode, tBool, tErr}), tYFile, tText)},
+			"yaml.GetValue": {"yamlGetValue", fnOf(pairOf(tText, tErr), tYNode)},
+			"yaml.Update":   {"yamlUpdate", fnOf(pairOf(tYFile, tErr), tYFile, tYPath, tText)}, "yaml.MarshalFile": {"yamlMarshal", fnOf(tText, tYFile, tBool)}}},
+	{pkg: "match", name: "typeMatcher.matcherError", sig: "err:error,path:string->MatcherError", out: "IO", recv: "t:typem"},
+	{pkg: "match", name: "typeMatcher.ErrOnMissingPath", sig: "e:bool->*typeMatcher[T]", out: "IO", recv: "t:typem"},
+	{pkg: "match", name: "typeMatcher.JSON", sig: "b:[]byte->[]byte,[]MatcherError", out: "IO", recv: "t:typem",
+		extra: []param{{"gjsonGet", fnOf(tGRes, tText, tText)}, {"sjsonSet", fnOf(pairOf(tText, tErr), tText, tText, tText)},
+			{"typeCheckFn", fnOf(tErr, tText)}, {"typePlaceholderFn", fnOf(tText, tText)}},
+		extFns: map[string]param{"gjson.GetBytes": {"gjsonGet", fnOf(tGRes, tText, tText)}, "sjson.SetBytesOptions": {"sjsonSet", fnOf(pairOf(tText, tErr), tText, tText, tText)},
+			"typeCheck": {"typeCheckFn", fnOf(tErr, tText)}, "typePlaceholder": {"typePlaceholderFn", fnOf(tText, tText)}}},
+	{pkg: "match", name: "typeMatcher.YAML", sig: "b:[]byte->[]byte,[]MatcherError", out: "IO", recv: "t:typem",
+		extra: []param{{"yamlParse", fnOf(pairOf(tYFile, tErr), tText)}, {"yamlGet", fnOf(nestedPair([]*ty{tYPath, tYNode, tBool, tErr}), tYFile, tText)},
+			{"yamlGetValue", fnOf(pairOf(tText, tErr), tYNode)},
+			{"yamlUpdate", fnOf(pairOf(tYFile, tErr), tYFile, tYPath, tText)}, {"yamlMarshal", fnOf(tText, tYFile, tBool)},
+			{"typeCheckFn", fnOf(tErr, tText)}, {"typePlaceholderFn", fnOf(tText, tText)}},
+		extFns: map[string]param{"parser.ParseBytes": {"yamlParse", fnOf(pairOf(tYFile, tErr), tText)}, "yaml.Get": {"yamlGet", fnOf(nestedPair([]*ty{tYPath, tYNode, tBool, tErr}), tYFile, tText)},
+			"yaml.GetValue": {"yamlGetValue", fnOf(pairOf(tText, tErr), tYNode)},
+			"yaml.Update":   {"yamlUpdate", fnOf(pairOf(tYFile, tErr), tYFile, tYPath, tText)}, "yaml.MarshalFile": {"yamlMarshal", fnOf(tText, tYFile, tBool)},
+			"typeCheck": {"typeCheckFn", fnOf(tErr, tText)}, "typePlaceholder": {"typePlaceholderFn", fnOf(tText, tText)}}},
 	// the Match* flows
 	{pkg: "snaps", name: "handleError", sig: "t:testingT,err:any->", out: "IO", fx: "st"},
 	{pkg: "snaps", name: "takeSnapshot", sig: "objects:[]any->string", out: "IO"},
@@ -338,6 +399,8 @@ var libTable = map[string]libFn{
 	"filepath.Rel":       {lean: "GoSnaps.GoSem.filepathRel", params: []*ty{tText, tText}, res: pairOf(tText, tBool)},
 	"strings.TrimSuffix": {lean: "GoSnaps.trimSuffix", params: []*ty{tText, tText}, res: tText},
 	"strings.HasPrefix":  {lean: "GoSnaps.hasPrefix", params: []*ty{tText, tText}, res: tBool},
+	"strings.HasSuffix":  {lean: "GoSnaps.hasSuffix", params: []*ty{tText, tText}, res: tBool},
+	"bytes.HasSuffix":    {lean: "GoSnaps.hasSuffix", params: []*ty{tText, tText}, res: tBool},
 	"bytes.HasPrefix":    {lean: "GoSnaps.hasPrefix", params: []*ty{tText, tText}, res: tBool},
 	"strings.Index":      {lean: "GoSnaps.GoSem.indexInt", params: []*ty{tText, tText}, res: tInt},
 	"bytes.Index":        {lean: "GoSnaps.GoSem.indexInt", params: []*ty{tText, tText}, res: tInt},
@@ -441,7 +504,7 @@ var leanReserved = map[string]bool{"at": true, "from": true, "end": true, "fun":
 	"match": true, "if": true, "for": true, "return": true, "by": true, "def": true, "theorem": true, "namespace": true,
 	"section": true, "variable": true, "universe": true, "import": true, "mut": true, "try": true, "catch": true,
 	"finally": true, "unless": true, "break": true, "continue": true, "deriving": true, "structure": true, "class": true,
-	"inductive": true, "using": true, "calc": true, "suffices": true, "obtain": true, "Type": true, "Prop": true, "Sort": true}
+	"inductive": true, "exists": true, "using": true, "calc": true, "suffices": true, "obtain": true, "Type": true, "Prop": true, "Sort": true}
 
 func leanIdent(n string) string {
 	if leanReserved[n] {
@@ -489,6 +552,8 @@ func goType(e ast.Expr) *ty {
 			return tT
 		case "set":
 			return tSet
+		case "MatcherError":
+			return tMErr
 		}
 	case *ast.MapType:
 		switch selName(e.Key) + ">" + func() string {
@@ -548,13 +613,24 @@ func goType(e ast.Expr) *ty {
 					return tTexts
 				}
 			}
-			if selName(e.Elt) == "match.MatcherError" {
+			if selName(e.Elt) == "match.MatcherError" || selName(e.Elt) == "MatcherError" {
 				return tMErrs
 			}
 		}
 	case *ast.StarExpr:
 		if id, ok := e.X.(*ast.Ident); ok && id.Name == "Config" {
 			return tCfg
+		}
+		if id, ok := e.X.(*ast.Ident); ok {
+			switch id.Name {
+			case "anyMatcher":
+				return tAnyM
+			case "customMatcher":
+				return tCustM
+			}
+		}
+		if ix, ok := e.X.(*ast.IndexExpr); ok && selName(ix.X) == "typeMatcher" {
+			return tTypeM
 		}
 		if sel, ok := e.X.(*ast.SelectorExpr); ok {
 			switch selName(sel) {
@@ -631,6 +707,18 @@ func (t *ftr) exprH(e ast.Expr, hint *ty) ex {
 					if ty.k == "sregistry" {
 						ft = tMap1
 					}
+					return ex{t.ln(id.Name) + "." + e.Sel.Name, ft, false}
+				}
+			}
+			if vt := t.lookup(id.Name); vt != nil && (vt.k == "anym" || vt.k == "typem" || vt.k == "custm") {
+				ft := matcherFieldTypes[e.Sel.Name]
+				ok := ft != nil
+				switch {
+				case e.Sel.Name == "placeholder" && vt.k != "anym", e.Sel.Name == "expectedType" && vt.k != "typem",
+					e.Sel.Name == "path" && vt.k != "custm", e.Sel.Name == "paths" && vt.k == "custm":
+					ok = false
+				}
+				if ok {
 					return ex{t.ln(id.Name) + "." + e.Sel.Name, ft, false}
 				}
 			}
@@ -927,6 +1015,9 @@ func (t *ftr) call(e *ast.CallExpr) ex {
 		if e.Ellipsis == token.NoPos && x.t.k == "texts" && y.t.k == "text" {
 			return ex{"(" + x.s + " ++ [" + y.s + "])", x.t, x.p || y.p}
 		}
+		if e.Ellipsis == token.NoPos && x.t.k == "merrs" && y.t.k == "merr" {
+			return ex{"(" + x.s + " ++ [" + y.s + "])", x.t, x.p || y.p}
+		}
 		return t.fail("unsupported append %s", t.src(e))
 	}
 	// a call with exactly these arguments declared opaque (made a parameter)
@@ -945,6 +1036,10 @@ func (t *ftr) call(e *ast.CallExpr) ex {
 		return t.fail("unsupported conversion %s", t.src(e.Fun))
 	}
 	name := selName(e.Fun)
+	if ix, ok := e.Fun.(*ast.IndexExpr); ok {
+		// an explicit instantiation f[T](x): the type argument is fixed by the receiver's value
+		name = selName(ix.X)
+	}
 	if id, ok := e.Fun.(*ast.Ident); ok {
 		// local function value
 		if ty := t.lookup(id.Name); ty != nil {
@@ -1259,6 +1354,30 @@ func (t *ftr) assign(b *strings.Builder, ind string, s *ast.AssignStmt) {
 	if len(s.Lhs) != 1 || len(s.Rhs) != 1 {
 		t.stmtFail(b, ind, "unsupported multi-assignment %s", t.src(s))
 		return
+	}
+	// assignment to a field of a matcher receiver: a.placeholder = p
+	if sel, ok := s.Lhs[0].(*ast.SelectorExpr); ok && s.Tok == token.ASSIGN && len(s.Lhs) == 1 {
+		if id, ok := sel.X.(*ast.Ident); ok && t.lookup(id.Name) != nil {
+			switch t.lookup(id.Name).k {
+			case "anym", "typem", "custm":
+				cur := t.expr(sel)
+				if t.err != nil {
+					b.WriteString(ind + "sorry\n")
+					return
+				}
+				x := t.exprH(s.Rhs[0], cur.t)
+				if t.err != nil {
+					b.WriteString(ind + "sorry\n")
+					return
+				}
+				if !x.t.eq(cur.t) || x.p {
+					t.stmtFail(b, ind, "field assignment %s", t.src(s))
+					return
+				}
+				fmt.Fprintf(b, "%s%s := { %s with %s := %s }\n", ind, t.ln(id.Name), t.ln(id.Name), sel.Sel.Name, x.s)
+				return
+			}
+		}
 	}
 	// assignment to a map entry of the receiver
 	if ix, ok := s.Lhs[0].(*ast.IndexExpr); ok {
@@ -1968,19 +2087,41 @@ func translateFunc(pkg *pkgInfo, sp *funcSpec, consts map[string]bool, funcs map
 	if sp.recv != "" {
 		// the receiver is the first, in-out parameter
 		parts := strings.SplitN(sp.recv, ":", 2)
-		rt := map[string]*ty{"registry": tReg, "sregistry": tSReg}[parts[1]]
+		rt := map[string]*ty{"registry": tReg, "sregistry": tSReg, "anym": tAnyM, "typem": tTypeM, "custm": tCustM}[parts[1]]
 		if rt == nil || len(fd.Recv.List) != 1 || len(fd.Recv.List[0].Names) != 1 || fd.Recv.List[0].Names[0].Name != parts[0] {
 			ffail("funcs: %s: receiver does not match %s", sp.name, sp.recv)
 		}
-		if _, isPtr := fd.Recv.List[0].Type.(*ast.StarExpr); !isPtr {
-			ffail("funcs: %s: value receiver (the method cannot change the registry)", sp.name)
+		_, isPtr := fd.Recv.List[0].Type.(*ast.StarExpr)
+		isMatcher := rt.k == "anym" || rt.k == "typem" || rt.k == "custm"
+		// does the method assign a field of its receiver?
+		mutates := false
+		ast.Inspect(fd.Body, func(n ast.Node) bool {
+			if as, ok := n.(*ast.AssignStmt); ok {
+				for _, l := range as.Lhs {
+					if sel, ok := l.(*ast.SelectorExpr); ok {
+						if id, ok := sel.X.(*ast.Ident); ok && id.Name == parts[0] {
+							mutates = true
+						}
+					}
+				}
+			}
+			return true
+		})
+		if !isPtr && (!isMatcher || mutates) {
+			ffail("funcs: %s: value receiver (the method cannot change its receiver)", sp.name)
+		}
+		if isMatcher && !pkg.structIs(map[string]string{"anym": "anyMatcher", "typem": "typeMatcher", "custm": "customMatcher"}[rt.k],
+			map[string]string{"anym": "paths:[],placeholder:any,errOnMissingPath:bool,name:string",
+				"typem": "paths:[],errOnMissingPath:bool,name:string,expectedType:any",
+				"custm": "callback:,errOnMissingPath:bool,name:string,path:string"}[rt.k]) {
+			ffail("funcs: %s: the receiver's struct type changed", sp.name)
 		}
 		t.bind(parts[0], rt)
 		pnames[parts[0]] = true
 		pts = append(pts, rt)
 		pns = append(pns, parts[0])
 		binders = append(binders, "("+leanIdent(parts[0])+" : "+rt.lean()+")")
-		if !isInout[parts[0]] {
+		if (!isMatcher || mutates) && !isInout[parts[0]] {
 			sp.inout = append([]string{parts[0]}, sp.inout...)
 			isInout[parts[0]] = true
 		}
@@ -2082,6 +2223,13 @@ func translateFunc(pkg *pkgInfo, sp *funcSpec, consts map[string]bool, funcs map
 			if id, ok := s.X.(*ast.Ident); ok {
 				t.muts[id.Name] = true
 			}
+		case *ast.CallExpr:
+			// yaml.Update(f, …) rewrites the parsed file f in place
+			if selName(s.Fun) == "yaml.Update" && len(s.Args) > 0 {
+				if id, ok := s.Args[0].(*ast.Ident); ok {
+					t.muts[id.Name] = true
+				}
+			}
 		}
 		return true
 	})
@@ -2151,6 +2299,8 @@ func translateFunc(pkg *pkgInfo, sp *funcSpec, consts map[string]bool, funcs map
 	b.WriteString(body)
 	return &doneFn{spec: sp, params: pts, pnames: pns, anyP: anyP, res: res, rets: rts, partial: t.partial, text: b.String()}
 }
+
+var matcherFieldTypes = map[string]*ty{"paths": tTexts, "placeholder": tText, "errOnMissingPath": tBool, "name": tText, "expectedType": tText, "path": tText}
 
 func leanDefName(n string) string { return strings.ReplaceAll(n, ".", "_") }
 
